@@ -13,6 +13,7 @@ import DC.Model.Check
 import DC.Model.Memo
 import DC.Model.Layers
 import DC.Model.Recipes
+import DC.Model.Spec
 
 open DC
 
@@ -304,6 +305,56 @@ def runCacheOp (s : Cache) (kv : KV) : Except String (Cache × Out) := do
   | _ => throw s!"method:{m}"
 
 
+/-- run one `sop` line on the reference dictionary of C03 (DC.Model.Spec): the same fields as an
+`op` line, key-addressed calls and the bulk removals only -/
+def runSpecOp (m : Spec.Dict) (cfg : Cfg) (kv : KV) : Except String (Spec.Dict × Out) := do
+  let meth := kv.getD "m" ""
+  let now ← match (kv.getD "now" "0").toInt? with | some n => pure n | none => throw "now"
+  let needK := ["set", "add", "touch", "incr", "decr", "get", "getitem", "read", "contains", "pop",
+                "delitem", "delete"].contains meth
+  let k ← if needK then
+      match (KV.get? kv "k").bind parsePyVal with | some k => pure k | none => throw "k"
+    else pure PyVal.none
+  let hexOpt (name : String) : Except String Bytes :=
+    match KV.get? kv name with
+    | none => pure []
+    | some "-" => pure []
+    | some h => match hexToBytes h with | some b => pure b | none => throw name
+  let kp ← hexOpt "kp"
+  let vp ← hexOpt "vp"
+  let E := obsE k kp vp
+  let getV : Except String PyVal :=
+    match (KV.get? kv "v").bind parsePyVal with | some v => pure v | none => throw "v"
+  let ttl ← match parseOptInt (kv.getD "ttl" "n") with | some t => pure t | none => throw "ttl"
+  let tag ← match parseSqlVal (kv.getD "tag" "n") with | some t => pure t | none => throw "tag"
+  let read := parseBool (kv.getD "read" "0")
+  let et := parseBool (kv.getD "et" "0")
+  let tg := parseBool (kv.getD "tg" "0")
+  let keyErr (r : Spec.Dict × Out) : Spec.Dict × Out :=
+    match r with
+    | (s, .default) => (s, .exc "KeyError")
+    | r => r
+  let delta ← match (kv.getD "delta" "1").toInt? with | some d => pure d | none => throw "delta"
+  let dflt ← match parseOptInt (kv.getD "default" "0") with | some d => pure d | none => throw "default"
+  match meth with
+  | "set" => do let v ← getV; pure (Spec.set m E cfg now k v ttl read tag)
+  | "add" => do let v ← getV; pure (Spec.add m E cfg now k v ttl read tag)
+  | "touch" => pure (Spec.touch m E cfg now k ttl)
+  | "incr" => pure (Spec.incr m E cfg now k delta dflt)
+  | "decr" => pure (Spec.incr m E cfg now k (-delta) dflt)
+  | "get" => pure (Spec.get m E cfg now k read et tg)
+  | "getitem" => pure (keyErr (Spec.get m E cfg now k false false false))
+  | "read" => pure (keyErr (Spec.get m E cfg now k true false false))
+  | "contains" => pure (Spec.contains m E cfg now k)
+  | "pop" => pure (Spec.pop m E cfg now k et tg)
+  | "delitem" => pure (Spec.delitem m E cfg now k)
+  | "delete" => pure (Spec.delete m E cfg now k)
+  | "clear" => pure (Spec.clear m)
+  | "evict" => pure (Spec.evict m tag)
+  | "expire" => pure (Spec.expire m now)
+  | "cull" => pure (Spec.cull m now)
+  | other => throw s!"spec-method:{other}"
+
 /-! ### `check` protocol -/
 
 def splitList (s : String) (sep : String) : List String :=
@@ -478,6 +529,7 @@ def answerAv (kv : KV) : String :=
 
 structure DState where
   cache : Cache := {}
+  spec : Spec.Dict := []
   memo : Memo.Store Nat := []
   fan : Fanout := { shards := [] }
   dq : Deque := { cache := {} }
@@ -774,7 +826,7 @@ def answer (st : DState) (line : String) : DState × String :=
     match parseCfg rest with
     | some c =>
       let stats := parseBool (KV.getD rest "stats" "0")
-      ({ st with cache := { cfg := c, statistics := stats } }, "ok")
+      ({ st with cache := { cfg := c, statistics := stats }, spec := [] }, "ok")
     | none => (st, "bad-op cfg")
   | ("state", _) :: _ => (st, "state " ++ renderState st.cache)
   | ("op", _) :: rest =>
@@ -782,6 +834,10 @@ def answer (st : DState) (line : String) : DState × String :=
     | .ok (c, out) =>
       ({ st with cache := c },
        "ret " ++ renderOut out ++ " | " ++ renderTrace c.trace ++ (if c.envMiss then " | env-missing" else ""))
+    | .error e => (st, "bad-op " ++ e)
+  | ("sop", _) :: rest =>
+    match runSpecOp st.spec st.cache.cfg rest with
+    | .ok (m, out) => ({ st with spec := m }, "ret " ++ renderOut out)
     | .error e => (st, "bad-op " ++ e)
   | ("lcfg", _) :: rest => answerLayer st "lcfg" rest
   | ("lop", _) :: rest => answerLayer st "lop" rest
